@@ -57,6 +57,9 @@ pub struct SynCase {
     /// cells are "padding" positions - they are cells of the matrix all the same
     #[serde(default)]
     pub short_by: usize,
+    /// 0 = the column count given by `wide`; 1 = 48 columns, 2 = 64 columns (generic and SSE2 backends only)
+    #[serde(default)]
+    pub wider: u8,
 }
 
 fn expand_cells(c: &Cells, cols: usize) -> Vec<Vec<f32>> {
@@ -140,8 +143,8 @@ fn syn_strategy(tier: Tier) -> BoxedStrategy<SynCase> {
     ];
     let prior = prop_oneof![2 => Just(0usize), 1 => 1usize..=3, 1 => 1usize..=80];
     let short = prop_oneof![2 => Just(0usize), 2 => 1usize..=40, 1 => 0usize..=3000];
-    (prop_oneof![Just(Dtype::F32), Just(Dtype::U8)], prop_oneof![3 => Just(true), 1 => Just(false)], cells, thr, prior, short)
-        .prop_map(|(dtype, wide, cells, thr, prior_rows, short_by)| SynCase { dtype, wide, cells, thr, prior_rows, short_by })
+    (prop_oneof![Just(Dtype::F32), Just(Dtype::U8)], prop_oneof![3 => Just(true), 1 => Just(false)], cells, thr, prior, short, prop_oneof![10 => Just(0u8), 1 => Just(1u8), 1 => Just(2u8)])
+        .prop_map(|(dtype, wide, cells, thr, prior_rows, short_by, wider)| SynCase { dtype, wide, cells, thr, prior_rows, short_by, wider })
         .boxed()
 }
 
@@ -384,7 +387,7 @@ impl Sub for Synthetic {
         "synthetic"
     }
     fn rule(&self) -> &'static str {
-        "StripedScores<f32|u8> with 16 or 32 columns built cell by cell, half of them in a buffer that first held 1..80 more rows of the largest value and was resized down, and three in five with a max_index smaller than rows x C (explicit / seeded incl. all-negative, few-valued / spikes incl. +-inf, duplicated maxima) x threshold (a cell value, between two values, below min, above max, arbitrary); generic, sse2, avx2, dispatch forced to each arm, StripedScores::{max,argmax,threshold} and Scores::{max,argmax,threshold} compared with a scan of all cells; sweep = one spike at every column x rows {1,2,3,33} x both dtypes x {all-negative, zero} base; non-trivial = rows >= 2 and (maximum outside row 0 / column 0, or every cell negative, or duplicated maximum)"
+        "StripedScores<f32|u8> with 16 or 32 (and, 1 case in 6, 48 or 64) columns built cell by cell, half of them in a buffer that first held 1..80 more rows of the largest value and was resized down, and three in five with a max_index smaller than rows x C (explicit / seeded incl. all-negative, few-valued / spikes incl. +-inf, duplicated maxima) x threshold (a cell value, between two values, below min, above max, arbitrary); generic, sse2, avx2, dispatch forced to each arm, StripedScores::{max,argmax,threshold} and Scores::{max,argmax,threshold} compared with a scan of all cells; sweep = one spike at every column x rows {1,2,3,33} x both dtypes x {all-negative, zero} base; non-trivial = rows >= 2 and (maximum outside row 0 / column 0, or every cell negative, or duplicated maximum)"
     }
     fn cases(&self, tier: Tier) -> u64 {
         tier.pick(150_000, 5_000_000)
@@ -411,6 +414,7 @@ impl Sub for Synthetic {
                                     thr: Thr::Cell(row * 32 + col),
                                     prior_rows: 0,
                                     short_by: 0,
+                                    wider: 0,
                                 });
                             }
                         }
@@ -429,6 +433,7 @@ impl Sub for Synthetic {
                     thr: Thr::Cell(row * 32 + col),
                     prior_rows: 0,
                                     short_by: 0,
+                                    wider: 0,
                 });
             }
         }
@@ -440,6 +445,7 @@ impl Sub for Synthetic {
                 thr: Thr::AboveMax,
                 prior_rows: 0,
                                     short_by: 0,
+                                    wider: 0,
             });
             out.push(SynCase {
                 dtype: Dtype::F32,
@@ -448,12 +454,23 @@ impl Sub for Synthetic {
                 thr: Thr::Cell(5),
                 prior_rows: 0,
                                     short_by: 0,
+                                    wider: 0,
             });
         }
         out
     }
     fn check(&self, case: &SynCase, _cx: &Cx) -> Verdict {
-        let cols = if case.wide { 32 } else { 16 };
+        let cols = match case.wider {
+            1 => 48,
+            2 => 64,
+            _ => {
+                if case.wide {
+                    32
+                } else {
+                    16
+                }
+            }
+        };
         let cells = expand_cells(&case.cells, cols);
         let rows = cells.len();
         let mut info = CaseInfo::new();
@@ -470,7 +487,17 @@ impl Sub for Synthetic {
                 info.class_if(all_neg, "all-negative");
                 info.nontrivial = rows >= 2 && (all_neg || n_max >= 2 || (first_max / cols != 0 && first_max % cols != 0));
                 let prior = if case.prior_rows > 0 { Some((case.prior_rows, f32::INFINITY)) } else { None };
-                let f = if case.wide { run_syn_wide::<f32>(&cells, thr, prior, case.short_by, &mut info) } else { run_syn::<f32, U16>(&cells, thr, false, prior, case.short_by, &mut info) };
+                let f = match case.wider {
+                    1 => run_syn::<f32, lightmotif::num::U48>(&cells, thr, false, prior, case.short_by, &mut info),
+                    2 => run_syn::<f32, lightmotif::num::U64>(&cells, thr, false, prior, case.short_by, &mut info),
+                    _ => {
+                        if case.wide {
+                            run_syn_wide::<f32>(&cells, thr, prior, case.short_by, &mut info)
+                        } else {
+                            run_syn::<f32, U16>(&cells, thr, false, prior, case.short_by, &mut info)
+                        }
+                    }
+                };
                 f.or_else(|| {
                     // Scores (unstriped vector) API
                     let sc = Scores::new(flat.clone());
@@ -506,15 +533,23 @@ impl Sub for Synthetic {
                 info.nontrivial = rows >= 2 && (n8 >= 2 || (f8 / cols != 0 && f8 % cols != 0));
                 let t8 = thr.clamp(0.0, 255.0) as u8;
                 let prior = if case.prior_rows > 0 { Some((case.prior_rows, 255u8)) } else { None };
-                if case.wide {
-                    run_syn_wide::<u8>(&cells8, t8, prior, case.short_by, &mut info)
-                } else {
-                    run_syn::<u8, U16>(&cells8, t8, false, prior, case.short_by, &mut info)
+                match case.wider {
+                    1 => run_syn::<u8, lightmotif::num::U48>(&cells8, t8, false, prior, case.short_by, &mut info),
+                    2 => run_syn::<u8, lightmotif::num::U64>(&cells8, t8, false, prior, case.short_by, &mut info),
+                    _ => {
+                        if case.wide {
+                            run_syn_wide::<u8>(&cells8, t8, prior, case.short_by, &mut info)
+                        } else {
+                            run_syn::<u8, U16>(&cells8, t8, false, prior, case.short_by, &mut info)
+                        }
+                    }
                 }
             }
         };
-        info.class_if(case.wide, "C=32");
-        info.class_if(!case.wide, "C=16");
+        info.class_if(case.wider == 0 && case.wide, "C=32");
+        info.class_if(case.wider == 0 && !case.wide, "C=16");
+        info.class_if(case.wider == 1, "C=48");
+        info.class_if(case.wider == 2, "C=64");
         info.class_if(rows == 0, "empty");
         info.class_if(case.prior_rows > 0, "buffer-shrunk-from-a-taller-use");
         info.class_if(case.short_by > 0 && rows > 0, "max_index<rows*C");
